@@ -260,6 +260,18 @@ def bounded_collective(tier, seed):
             a, b = rng.choice(n, size=2, replace=False)
             rows.append([int(rng.integers(0, 4)), int(a), int(b), s, s + transit])
         inp = {'rows': rows, 'n_sites': n, 'max_steps': int(rng.choice([0, 1, 2, 5, 20])), 'geometry': 'line', 'max_dist': float(rng.choice([1.0, 2.5, 4.5]))}
+        if c % 3 == 2:
+            # the same few sites recurring in different groupings: two adjacent pairs (p,p+1), (q,q+1) far apart on a ring of 8-10 sites, so
+            # that A->B with C->D is a far pair of jumps while A->C with B->D is a close one
+            n = int(rng.integers(8, 11))
+            p0 = int(rng.integers(0, n))
+            quad = [p0, (p0 + 1) % n, (p0 + 4) % n, (p0 + 5) % n]
+            rows = []
+            for _ in range(int(rng.integers(3, 10))):
+                s = int(rng.integers(0, 12))
+                a, b = rng.choice(4, size=2, replace=False)
+                rows.append([int(rng.integers(0, 4)), quad[int(a)], quad[int(b)], s, s + int(rng.choice([1, 2, 5]))])
+            inp = {'rows': rows, 'n_sites': n, 'max_steps': int(rng.choice([5, 20])), 'geometry': 'line', 'max_dist': 2.5}
         r = st.guard(replay_collective, inp)
         if r is None:
             continue
